@@ -9,10 +9,19 @@
     on the Top port: deliveries (accepted or refused by the bounded buffer),
     ticks, retrievals.  [c_early c = true] is the component after the repair
     (commit 'fix: simplebankedmemory performs the storage access in arrival
-    order'); [c_early c = false] is the component as it was before. *)
+    order'); [c_early c = false] is the component as it was before.
+
+    Scope of the arithmetic: the model computes addresses in unbounded [N]; it
+    coincides with Go's uint64 arithmetic as long as nothing wraps around, i.e.
+    for configurations and requests satisfying the no-wrap clauses of [wf_cfg] /
+    [wf_req] (capacity + 4096 < 2^64, converter products < 2^64, address +
+    length <= 2^64; see [dram_wf_means_no_wrap]).  The safety theorems below
+    hold for every history of the model; they speak about the Go component for
+    the histories in that range.  The no-panic and liveness theorems carry the
+    hypothesis explicitly. *)
 From Coq Require Import Permutation.
 From VLib Require Import Akita ListX.
-From VMem Require Import Pipeline Dram DramProofs.
+From VMem Require Import Pipeline Dram DramProofs DramLive.
 Open Scope N_scope.
 
 (** ** Exactly one response per accepted request, none spurious — both before
@@ -95,6 +104,59 @@ Theorem dram_order_refuted_before_repair :
 Proof. exact order_refuted_before_repair. Qed.
 Print Assumptions dram_order_refuted_before_repair.
 
+(** ** Panic freedom.  For every configuration the builder accepts (with a
+    representable interleave size and no wrap-around, [wf_cfg]) and every history
+    whose delivered messages are well-formed requests ([wf_req]: read or write,
+    real requester as source, inside the capacity, accepted by the configured
+    address converters, mask absent or at least as long as the data, no
+    wrap-around), the component never panics: [tick] never returns [None]. *)
+Theorem dram_no_panic : forall c evs,
+  wf_cfg c = true -> Forall (fun e => wf_ev c e = true) evs ->
+  crashed (run (init c) evs) = false /\ ~ In OCrash (run_obs (init c) evs).
+Proof. exact no_panic. Qed.
+Print Assumptions dram_no_panic.
+
+Theorem dram_wf_means_no_wrap : forall c r,
+  (wf_req c r = true -> m_addr r + req_len r <= two64) /\
+  (wf_cfg c = true -> c_log2ilv c < 64 /\ c_capacity c + unit_size < two64 /\
+                      ilv_fits (c_aconv c) = true /\ ilv_fits (c_bconv c) = true).
+Proof. intros c r. split; [apply wf_req_no_wrap|apply wf_cfg_no_wrap]. Qed.
+Print Assumptions dram_wf_means_no_wrap.
+
+(** ** Liveness.  A fair round = the requester retrieves everything that waits
+    in the Top port, then the memory ticks once ([round]).  [mu] is the remaining
+    work: a request still in the port weighs [missdelay + cps*depth + 4], a
+    pending one one less, one in a delay queue [cyclesLeft + cps*depth + 2], one
+    in a pipeline stage [cycleLeft + stagesBehind*cps + 2], one in a
+    post-pipeline buffer 1.  In every reachable state a fair round never
+    increases [mu] and strictly decreases it while anything is in flight, and
+    [mu] is at most (number of requests in flight) * (missdelay + cps*depth + 4). *)
+Theorem dram_fair_round_decreases : forall c evs,
+  wf_cfg c = true -> Forall (fun e => wf_ev c e = true) evs ->
+  let s := run (init c) evs in
+  (mu (round s) <= mu s)%nat /\ (busy s -> (mu (round s) < mu s)%nat) /\
+  (mu s <= (length (top_in s) + length (items s)) * (c_missdelay c + c_cps c * c_depth c + 4))%nat.
+Proof. exact fair_round_decreases. Qed.
+Print Assumptions dram_fair_round_decreases.
+
+(** Hence from every reachable state, after at most
+    (requests in flight) * (row-miss delay + stage latency * depth + 4) fair
+    rounds without further deliveries nothing is in flight any more, the
+    component has not panicked, and every request ever delivered - including
+    those that were still waiting in the port - has its response (the answered
+    items are exactly the delivered requests, each once). *)
+Theorem dram_every_request_answered : forall c evs,
+  wf_cfg c = true -> Forall (fun e => wf_ev c e = true) evs ->
+  let s := run (init c) evs in
+  exists n, (n <= (length (top_in s) + length (items s)) * (c_missdelay c + c_cps c * c_depth c + 4))%nat /\
+    let s' := rounds n s in
+    crashed s' = false /\ g_deliv s' = g_deliv s /\ top_in s' = [] /\ items s' = [] /\
+    Permutation (map key (g_done s')) (keys_of (g_deliv s)) /\
+    forall k r, nth_error (g_deliv s) k = Some r ->
+      exists m, In m (g_retr s' ++ top_out s') /\ answers m r.
+Proof. exact every_request_answered. Qed.
+Print Assumptions dram_every_request_answered.
+
 (** ** Non-vacuity: the same history on the repaired component answers both
     requests, the read with the bytes just written; a masked write changes
     only its enabled bytes; 16 banks, depth 5, row-miss delay 52 (MI300A). *)
@@ -118,4 +180,15 @@ Example demo_masked :
   map m_data (g_retr s) = [[]; [1;2;9;4;5;9;7;8]; []] /\
   map m_rspto (top_out s) = [5; 1] /\ map m_data (top_out s) = [[0;0;1;2]; []] /\
   items s = [] /\ crashed s = false.
+Proof. vm_compute. repeat split; reflexivity. Qed.
+
+(** the hypotheses of the no-panic and liveness theorems hold for this history;
+    its five requests are all in flight after the deliveries and two ticks, the
+    bound of [dram_every_request_answered] is 5 * (52 + 1*5 + 4) = 305 rounds,
+    the ranking function says 244, the last response is produced in round 58 *)
+Example demo_wf :
+  wf_cfg cfg_mi300a = true /\ forallb (wf_ev cfg_mi300a) demo = true /\
+  let s := run (init cfg_mi300a) (firstn 7 demo) in
+  length (items s) = 5%nat /\ mu s = 244%nat /\ length (items (rounds 57 s)) = 2%nat /\
+  items (rounds 58 s) = [] /\ map m_rspto (g_retr (rounds 58 s) ++ top_out (rounds 58 s)) = [2; 3; 4; 5; 1].
 Proof. vm_compute. repeat split; reflexivity. Qed.
